@@ -155,6 +155,8 @@ def main():
         write_evidence(args.evidence_dir, prop, pdef, tier, seed, reports, violations, known_hit, wall, cfgs, progs)
     for rep in reports:
         print("rule %-22s instances=%-3d obligations=%-4d discharged=%-4d findings=%d" % (rep.rule, len(rep.instances), rep.obligations, rep.discharged, len(rep.findings)))
+    for n in sorted({n for p in progs.values() for n in getattr(p, "renamed", [])}):
+        print("NOTE renamed anchor: %s" % n)
     for ln in lines:
         print(ln)
     print("%s: %s (%.1fs)" % (prop, "FAIL" if violations else "ok", wall))
@@ -191,6 +193,7 @@ def write_evidence(evdir, prop, pdef, tier, seed, reports, violations, known_hit
         "functions_in_program": len(funcs),
         "samples": samples[:40] if samples else [{"note": "no instances"}],
         "known_findings_hit": [f.key for f, _ in known_hit],
+        "renamed_anchors": sorted({n for p in progs.values() for n in getattr(p, "renamed", [])}),
         "exhaustive": False,
     }
     if level == "translation_validation":
